@@ -154,7 +154,8 @@ def rand_tspec(rng, o, types, depth, complex_ok=True):
         if getattr(o, 'array_item_occ', False) and rng.random() < .35:
             # ... unless asked for: the occurrence attributes of the item type of an Array say how many items it holds
             inner['min_occurs'] = rng.choice((0, 1, 2))
-            inner['max_occurs'] = rng.choice((max(inner['min_occurs'], 1), inner['min_occurs'] + 1, 3, 5))
+            # (at least 2: Array() reads a max_occurs of 1 on its item type as "not set")
+            inner['max_occurs'] = rng.choice((max(inner['min_occurs'], 2), inner['min_occurs'] + 2, 3, 5))
         return occ(rng, {'array': inner})
     if o.seqs and r < .58 and depth > 0:
         inner = rand_tspec(rng, o, types, 0, complex_ok)
